@@ -24,6 +24,7 @@ import random
 
 from harness.runner import Family
 from harness import gen_ts
+from harness.gen_ts import hx
 from harness.common import cz, cn, clist, cbool
 
 NULL = -1
@@ -105,11 +106,35 @@ def decode_alleles(tc, nodes):
         return {"error": "%s: %s" % (type(e).__name__, e)}
 
 
+def permute_individuals(tc, perm):
+    """Rewrite the individual table so that new row k is old row perm[k]; node references
+    and parents follow.  TableCollection.simplify accepts individuals in ANY row order
+    (it never requests TSK_CHECK_INDIVIDUAL_ORDERING); tc.sort() would put parents first."""
+    import numpy as np
+    rows = list(tc.individuals)
+    n = len(rows)
+    assert sorted(perm) == list(range(n))
+    new_of_old = [0] * n
+    for k, old in enumerate(perm):
+        new_of_old[old] = k
+    tc.individuals.clear()
+    for k in range(n):
+        r = rows[perm[k]]
+        tc.individuals.add_row(flags=r.flags, location=r.location,
+                               parents=[new_of_old[q] if q != NULL else NULL for q in r.parents],
+                               metadata=r.metadata)
+    ind = tc.nodes.individual.copy()
+    tc.nodes.individual = np.array([new_of_old[i] if i != NULL else NULL for i in ind], dtype=np.int32)
+
+
 def run_simplify(case):
     import numpy as np
     desc, samples, opts = case["desc"], case["samples"], case["opts"]
     hm = _hmap(desc)
     tc = gen_ts.build_tables(desc, sort=True, index=False)
+    shuffled = bool(case.get("ind_perm")) and len(case["ind_perm"]) == tc.individuals.num_rows
+    if shuffled:
+        permute_individuals(tc, case["ind_perm"])
     obs = {"in": dump_tables(tc, hm)}
     obs["in_alleles"] = decode_alleles(tc.copy(), samples) if not case.get("no_decode") else None
     kw = dict(opts)
@@ -122,13 +147,18 @@ def run_simplify(case):
     obs["node_map"] = nm
     obs["out"] = dump_tables(tc, hm)
     try:
-        ts = tc.copy().tree_sequence()
+        tcv = tc.copy()
+        if shuffled:
+            # a tree sequence needs parents-first individuals; the input did not have them,
+            # so validity of the result is judged after sorting (sort only reorders)
+            tcv.sort()
+        ts = tcv.tree_sequence()
         obs["valid"] = True
         obs["num_trees"] = int(ts.num_trees)
     except Exception as e:
         obs["valid"] = "%s: %s" % (type(e).__name__, e)
     out_samples = [nm[s] for s in samples]
-    obs["out_alleles"] = decode_alleles(tc.copy(), out_samples) if obs["valid"] is True else None
+    obs["out_alleles"] = decode_alleles(tc.copy(), out_samples) if obs["valid"] is True and not shuffled else None
     # idempotence: simplify the result again w.r.t. the same (mapped) samples and options
     tc2 = tc.copy()
     try:
@@ -577,6 +607,16 @@ def random_opts(rng, p_flip=0.35):
     return o
 
 
+def with_ind_perm(rng, case, p=0.4):
+    """With probability p: individuals in an arbitrary (non parents-first) row order."""
+    n = len(case["desc"]["individuals"])
+    if n >= 2 and rng.random() < p:
+        perm = list(range(n))
+        rng.shuffle(perm)
+        case = dict(case, ind_perm=perm)
+    return case
+
+
 def random_samples(rng, desc, maxk=4):
     n = len(desc["nodes"])
     if n == 0:
@@ -600,6 +640,8 @@ def shrink_case(case):
             o2 = dict(o)
             o2[k] = DEFAULTS[k]
             yield dict(case, opts=o2)
+    if case.get("ind_perm"):
+        yield {k: v for k, v in case.items() if k != "ind_perm"}
     for i in range(len(S)):
         yield dict(case, samples=S[:i] + S[i + 1:])
     for i in range(len(d["mutations"]) - 1, -1, -1):
@@ -640,7 +682,7 @@ class Simplify(Family):
             big = rng.random() < 0.25
             d = clean_desc(gen_ts.random_desc(rng, max_nodes=12 if big else 8, max_L=8 if big else 6,
                                               max_sites=5 if big else 3))
-            yield {"desc": d, "samples": random_samples(rng, d), "opts": random_opts(rng)}
+            yield with_ind_perm(rng, {"desc": d, "samples": random_samples(rng, d), "opts": random_opts(rng)}, 0.25)
         q = tier == "quick"
         # (extension round) blind spots of the stream above
         # 1. larger tree sequences (13..30 nodes, up to 12 breakpoints, up to 8 chosen
@@ -657,7 +699,7 @@ class Simplify(Family):
                     break
             o = random_opts(rng)
             o["keep_unary"], o["keep_unary_in_individuals"] = False, True
-            yield {"desc": d, "samples": random_samples(rng, d, maxk=3), "opts": o, "stream": "kui"}
+            yield with_ind_perm(rng, {"desc": d, "samples": random_samples(rng, d, maxk=3), "opts": o, "stream": "kui"}, 0.4)
         # 3. population / individual filters: every node references a population and an
         #    individual, few chosen samples (most references disappear), filters on and off,
         #    individual parents pointing at individuals that get removed
@@ -673,7 +715,25 @@ class Simplify(Family):
                                 for k, (fl, loc, par, m) in enumerate(d["individuals"])]
             o = random_opts(rng)
             o["filter_populations"], o["filter_individuals"] = rng.random() < 0.5, rng.random() < 0.5
-            yield {"desc": d, "samples": random_samples(rng, d, maxk=2), "opts": o, "stream": "refs"}
+            yield with_ind_perm(rng, {"desc": d, "samples": random_samples(rng, d, maxk=2), "opts": o, "stream": "refs"}, 0.5)
+        # 4. pedigrees: 3..6 individuals, most with one or two parents, every node attached to
+        #    an individual, several chosen samples (several individuals and their parents are
+        #    retained), rows of the individual table in an arbitrary order -- simplify does
+        #    not require parents-first -- filter_individuals on and off
+        for _ in range(250 if q else 5000):
+            while True:
+                d = clean_desc(gen_ts.random_desc(rng, max_nodes=9, max_L=3, max_sites=2))
+                if len(d["nodes"]) >= 3:
+                    break
+            ni = rng.randrange(3, 7)
+            d["individuals"] = [[rng.randrange(0, 4), [], [rng.choice([NULL] + list(range(k)) * 4)
+                                                          for _ in range(rng.choice([0, 1, 2, 2]))] if k else [], hx(rng)]
+                                for k in range(ni)]
+            d["nodes"] = [[f, t, p, rng.randrange(ni) if rng.random() < 0.95 else NULL, m] for f, t, p, i, m in d["nodes"]]
+            o = random_opts(rng)
+            o["filter_individuals"] = rng.random() < 0.7
+            case = {"desc": d, "samples": random_samples(rng, d, maxk=5), "opts": o, "stream": "pedigree"}
+            yield with_ind_perm(rng, case, 1.0)
 
     def observe(self, case):
         return run_simplify(case)
@@ -688,7 +748,7 @@ class Simplify(Family):
         return len(case["samples"]) >= 2 and len(case["desc"]["edges"]) >= 2 and "out" in obs
 
     def describe(self, case, obs):
-        return {"stream": case.get("stream", "main"), "num_nodes_bucket": min(len(case["desc"]["nodes"]) // 5, 6),
+        return {"stream": case.get("stream", "main"), "individual_rows_shuffled": bool(case.get("ind_perm")), "num_nodes_bucket": min(len(case["desc"]["nodes"]) // 5, 6),
                 "num_samples": len(case["samples"]),
                 "options": "+".join(o for o in OPTS if case["opts"][o]) or "none",
                 "nonsample_chosen": any(not (case["desc"]["nodes"][s][0] & 1) for s in case["samples"]),
@@ -713,7 +773,7 @@ class Small(Simplify):
                 n = len(d["nodes"])
                 for k in range(0, 4):
                     for S in itertools.permutations(range(n), k):
-                        yield {"desc": d, "samples": list(S), "opts": random_opts(rng, p_flip=0.3)}
+                        yield with_ind_perm(rng, {"desc": d, "samples": list(S), "opts": random_opts(rng, p_flip=0.3)}, 0.3)
 
 
 class Refusal(Family):
